@@ -208,6 +208,31 @@ theorem facts_stop_shape : Vegeta.Extracted.stopShape =
      [111, 110, 99, 101, 46, 68, 111, 123, 99, 97, 108, 108, 32, 99, 108, 111, 115, 101, 59, 97, 115, 115, 105, 103, 110, 32, 115, 116, 111, 112, 112, 101, 100, 125],
      [114, 101, 116, 117, 114, 110]] := by decide
 
+/-! #### source facts (binding): the shape of `Attack` the transition system assumes -/
+
+/-- Both channels of an attack are unbuffered (`results unbuffered`, `ticks unbuffered`): a tick handed over is a
+tick a worker holds (the model's `tick` step moves a worker from `idle` to `got` in the same step — there is no room
+for a released hit other than a worker's hands), and a result delivered is a result the consumer has taken. -/
+theorem facts_attack_channels : Vegeta.Extracted.attackChans =
+    [[114, 101, 115, 117, 108, 116, 115, 32, 117, 110, 98, 117, 102, 102, 101, 114, 101, 100],
+     [116, 105, 99, 107, 115, 32, 117, 110, 98, 117, 102, 102, 101, 114, 101, 100]] := by decide
+
+/-- The deferred end of the main goroutine is `close(ticks); wg.Wait(); close(results); a.Stop()` in this order — the
+model's `closeTicks → waitWG → closeResults → finalStop → done`. -/
+theorem facts_attack_deferred : Vegeta.Extracted.attackDeferred =
+    [[99, 108, 111, 115, 101, 32, 116, 105, 99, 107, 115],
+     [87, 97, 105, 116],
+     [99, 108, 111, 115, 101, 32, 114, 101, 115, 117, 108, 116, 115],
+     [83, 116, 111, 112]] := by decide
+
+/-- Every worker goroutine is announced to the WaitGroup by exactly one `wg.Add(1)` immediately before its
+`go a.attack(…)` (`wg.Add(1) => go attack` for the initial pool, `workers++; wg.Add(1) => go attack` on demand), and
+these are the only `Add` calls in `Attack`: the WaitGroup counts exactly the goroutines started — the model's
+`nworkers`, which `wgDone` compares with `exited`. (Seeds c02l/c04m added the unclamped count in one call.) -/
+theorem facts_attack_spawn_sites : Vegeta.Extracted.attackSpawnSites =
+    [[119, 103, 46, 65, 100, 100, 40, 49, 41, 32, 61, 62, 32, 103, 111, 32, 97, 116, 116, 97, 99, 107],
+     [119, 111, 114, 107, 101, 114, 115, 43, 43, 59, 32, 119, 103, 46, 65, 100, 100, 40, 49, 41, 32, 61, 62, 32, 103, 111, 32, 97, 116, 116, 97, 99, 107]] ∧ Vegeta.Extracted.attackWaitGroupAdds = 2 := by decide
+
 /-! #### the CLI result pump (`processAttack`, attack.go) -/
 
 def PumpInv (p : Vegeta.Model.Pump.St) : Prop :=
